@@ -685,3 +685,13 @@ func SaveFuzzFailure(property, check string, c any, err error) {
 	p := writeReplay(fail{Property: property, Test: "fuzz", Check: check, Case: raw, Failure: err.Error(), Seed: seed, Tier: tier})
 	fmt.Fprintf(Stdout, "VERIF-CORPUS-REPLAY %s\n", p)
 }
+
+// Replayed reports the outcome of replaying a recorder case (enumerations and sweeps).
+func (r *Recorder) Replayed(err error) {
+	fmt.Fprintf(Stdout, "VERIF-REPLAY property=%s check=%s\n", r.prop, r.name)
+	if err != nil {
+		fmt.Fprintf(Stdout, "VERIF-REPLAY-FAIL property=%s check=%s reason=%q\n", r.prop, r.name, firstLine(err.Error()))
+		r.t.Fatalf("replayed case fails: %v", err)
+	}
+	fmt.Fprintf(Stdout, "VERIF-REPLAY-PASS property=%s check=%s\n", r.prop, r.name)
+}
